@@ -9,12 +9,12 @@
      happens_before(i,j) for all pairs and get_racing_events_of(e) for all e, after each push and at the end;
      spec/mc/HbTrace.tla recomputes both from the logged dependency matrix and compares; Dep must be symmetric.
 
-Mutations tried (tools/mutbuild.sh, quick tier), all caught with exit 1:
-  * push_transition: `break` of the per-actor scan replaced by taking only the direct dependency (clock vector of the
-    dependent event not merged: happens_before misses the transitive step)            -> VIOLATION (hb, hb_push)
-  * get_racing_events_of: the "no intermediate event" test `happens_before(e_i, e_j)` dropped   -> VIOLATION (racing)
-  * get_racing_events_of: the test against the previous event of the same actor dropped         -> VIOLATION (racing)
-  * happens_before: `<=` turned into `<` (an event's own clock entry)                           -> VIOLATION (hb)
+Mutations tried (tools/mutbuild.sh worktree, mutated objects relinked into a copy of the build, quick tier), all caught (exit 1):
+  * push_transition: only the direct dependency is recorded, the clock vector of the dependent event is not merged
+    (happens_before misses the transitive step)                                      -> VIOLATION (hb_push, hb, racing)
+  * get_racing_events_of: the "no intermediate event" test `happens_before(e_i, e_j)` disabled  -> VIOLATION (racing, racing_push)
+  * get_racing_events_of: the test against the previous event of the same actor removed         -> VIOLATION (racing, racing_push)
+  * happens_before: `e1 <= clock` turned into `e1 < clock`                                      -> VIOLATION (hb_push, racing)
 """
 import json, os
 import vlib
